@@ -30,6 +30,8 @@ type World struct {
 	overlay map[string][]byte
 	loadErr []string
 	ginit   map[string]*Term
+	// tilePathSlash counts the SumDB tile path templates recognised by C18.a, by whether they start with '/'
+	tilePathSlash map[bool]int
 }
 
 func loadWorld(repo string, overlay map[string][]byte, withDeps bool) (*World, error) {
